@@ -1058,7 +1058,18 @@ def arange(start, stop=None, step=1, dtype=None):
         start, stop = 0, start
     st, sp = term(start), term(stop)
     if not (z3.is_int(st) and z3.is_int(sp)):
-        raise Unsupported("float arange")
+        # float bounds (e.g. arange(0, np.floor(ns / 2) + 1)): length ceil(stop - start), elements start + i, dtype float64
+        stepc = conc(step)
+        if stepc != 1:
+            raise Unsupported("float arange with step != 1")
+        from .core import to_real, ceil_real
+        d = z3.simplify(to_real(sp) - to_real(st))
+        ln = z3.ToInt(ceil_real(d))
+        ln = z3.If(ln > 0, ln, z3.IntVal(0))
+        dtf = np.dtype(dtype) if dtype is not None else np.dtype("float64")
+        cx = cur()
+        lnp = cx.prune(ln) if cx is not None else simp(ln)
+        return SArr(dtf, (dim(lnp),), lambda idx: to_real(st) + z3.ToReal(idx[0]))
     stepc = conc(step)
     if stepc is None or stepc == 0:
         raise Unsupported("symbolic arange step")
